@@ -22,7 +22,7 @@ RULE = (
 )
 ASSUMPTIONS = ["thread runs sample timing-dependent behaviour only; the guarantee comes from the sequential executor", "inside a fused task sub-tasks are invisible to the monitor, therefore every plan is also run unfused",
                "UDFs used by generated programs are pure by construction"]
-BUDGET_S = {"quick": 170, "thorough": 3000}
+BUDGET_S = {"quick": 170, "thorough": 900}
 
 W = {"assign": 3, "binop": 3, "series_red_reuse": 3, "bcast_scalar": 2, "filter": 2.5, "filter_pred": 2.5, "where": 2, "merge": 2.5, "groupby_agg": 2.5, "shuffle": 1.5, "sort_values": 1.5, "set_index": 1.5,
      "map_partitions": 2.5, "rename": 2, "to_frame": 2, "reset_index": 2, "concat1": 2, "concat0": 1.5, "fillna": 1.5, "astype": 1, "cut": 1, "index_of": 1.5, "rename_series": 3, "cum": 1.5, "shift": 1}
